@@ -181,7 +181,9 @@ def gen_mdp_run(rng, tier):
 def gen_mdp_eval(rng, tier, deterministic):
     cap = rng.choice([0, 1, 2, 5, "large", 3])
     dyadic = rng.random() < .5
-    m = gen_mdp_for(rng, tier, cap)
+    r = rng.random()
+    gamma = "0" if r < .15 else ("1" if r < .22 else ("1/1024" if r < .27 else None))
+    m = gen_mdp_for(rng, tier, cap, gamma=gamma)
     if deterministic:
         m = make_deterministic(m)
     n_sims = rng.choice([1, 2, 3, 5, 8])
@@ -191,10 +193,25 @@ def gen_mdp_eval(rng, tier, deterministic):
             "stream": gen_stream(rng, n_sims * (2 * capn + 1) + 3, dyadic), "gstream": gen_stream(rng, 4, dyadic)}
 
 
-def gen_returns(rng):
-    n = rng.randint(1, 12)
+RET_GAMMAS = gen_mdp.GAMMAS_DISC + ["1", "1/10", "0", "0", "1", "1/1024", "1/1024"]
+
+
+def gen_returns(rng, mode="short"):
+    """short: length 1..12 (also through the Coq model), gammas incl. 0, 1, 2^-10;
+    long_half: length 1100..1500 with gamma 1/2 (gamma^t underflows to 0 beyond t ~ 1075);
+    long_small: length 110..200 with gamma 2^-10 or 0 (gamma^t underflows beyond t ~ 108).
+    Long lists are compared with the exact backward recursion in Python only (not through Coq)."""
+    if mode == "long_half":
+        n, gamma = rng.randint(1100, 1500), "1/2"
+    elif mode == "long_small":
+        n, gamma = rng.randint(110, 200), rng.choice(["1/1024", "1/1024", "0", "1/10"])
+    else:
+        n, gamma = rng.randint(1, 12), rng.choice(RET_GAMMAS)
     rs = [str(F(rng.randint(-16, 16), rng.choice([1, 1, 4]))) for _ in range(n)]
-    return {"kind": "returns", "rewards": rs, "gamma": rng.choice(gen_mdp.GAMMAS_DISC + ["1", "1/10"])}
+    if mode != "short" and rng.random() < .5:
+        # make sure the far tail matters: non-zero rewards at the very end
+        rs[-1] = str(F(rng.choice([-16, -7, 5, 16])))
+    return {"kind": "returns", "rewards": rs, "gamma": gamma, "long": mode != "short"}
 
 
 def gen_pomdp_run(rng, tier, probe=False):
@@ -505,10 +522,13 @@ def run(ctx):
         cases = ([gen_mdp_run(rng, tier) for _ in range(200 * k)]
                  + [gen_mdp_eval(rng, tier, deterministic=(i % 3 == 0)) for i in range(75 * k)]
                  + [gen_pomdp_run(rng, tier, probe=(i == 0)) for i in range(120 * k)]
-                 + [gen_returns(rng) for _ in range(30 * k)])
+                 + [gen_returns(rng) for _ in range(30 * k)]
+                 + [gen_returns(rng, "long_half") for _ in range(2 if tier == "quick" else 8)]
+                 + [gen_returns(rng, "long_small") for _ in range(6 if tier == "quick" else 40)])
     impl = ctx.impl("c14_impl.py", {"cases": cases}, shards=8 if tier == "quick" else 16)["results"]
 
     terms, meta = [], []
+    long_returns = []
     skipped = {}
     for i, (case, res) in enumerate(zip(cases, impl)):
         if "error" in res:
@@ -517,6 +537,9 @@ def run(ctx):
             continue
         if "skipped" in res:
             skipped[res["skipped"]] = skipped.get(res["skipped"], 0) + 1
+            continue
+        if case["kind"] == "returns" and case.get("long"):
+            long_returns.append(i)
             continue
         terms.append(term_for(case, res))
         meta.append((i, case["kind"]))
@@ -696,6 +719,31 @@ def run(ctx):
             if len(rec) > 1:
                 distinct.add(vlib.structural_hash(case))
 
+    # long reward lists: exact backward recursion in Python only (exact rationals of this size are too slow in vm_compute)
+    n_long = 0
+    for i in long_returns:
+        case, res = cases[i], impl[i]
+        n_long += 1
+        g = F(float(F(case["gamma"])))
+        rec = returns_rec([F(r) for r in case["rewards"]], g)
+        for name in ("returns", "returns_intlist"):
+            got = res[name]
+            bad = next((j for j, (x, y) in enumerate(zip(got, rec)) if isinstance(x, str) or not close(vlib.frac(x), y)), None)
+            if len(got) != len(rec) or bad is not None:
+                small = dict(res, returns="(%d values)" % len(res["returns"]), returns_intlist="(%d values)" % len(res["returns_intlist"]))
+                small["first_bad_index"] = bad
+                small["got"] = None if bad is None else got[bad]
+                small["expected"] = None if bad is None else str(rec[bad])
+                mismatch(case, small, "returns", None, "discounted returns differ from the backward recursion")
+                break
+        distinct.add(vlib.structural_hash(case))
+    feats["returns_long_python_only"] = n_long
+    feats["returns_gamma0"] = sum(1 for c in cases if c["kind"] == "returns" and F(c["gamma"]) == 0)
+    feats["eval_gamma0"] = sum(1 for c in cases if c["kind"] == "mdp_eval" and F(c["mdp"]["gamma"]) == 0)
+    feats["eval_gamma0_deterministic"] = sum(1 for c in cases if c["kind"] == "mdp_eval" and F(c["mdp"]["gamma"]) == 0
+                                             and c.get("deterministic"))
+    counts["returns_long"] = n_long
+
     ctx.coverage.update({
         "evaluations": sum(counts.values()),
         "distinct_nontrivial": len(distinct),
@@ -705,7 +753,10 @@ def run(ctx):
                 "{0,1,2,3,5,8,large=2^30,default}; streams of odd/2^21 values plus exact k/8 ties (dyadic cases) and extremes; "
                 "evaluate_on with n in {1,2,3,5,8}, one third deterministic policy on deterministic MDP; POMDPs = such MDPs with all "
                 "actions everywhere + observation distributions, policies = table controller (harness subclass of POMDPPolicy) and "
-                "msdm StochasticFiniteStateController; calc_returns on reward lists of length 1..12; distinct = structural hash of "
+                "msdm StochasticFiniteStateController; calc_returns on reward lists of length 1..12 with gamma in {1/2..19/20, 1, 1/10, 0, 2^-10} (model + exact oracle), and on long lists "
+                "(length 1100..1500 with gamma 1/2, length 110..200 with gamma 2^-10 / 0 / 1/10: gamma^t underflows) compared in Python only "
+                "against the exact rational backward recursion at 1e-12 relative to max(1,|x|) (not through Coq: exact rationals of that size "
+                "are too slow in vm_compute); evaluate_on also with discount 0, 1, 2^-10; distinct = structural hash of "
                 "(model, policy, start, cap, trajectory); non-trivial = at least one step taken (returns: length > 1)" % (5 if tier == "quick" else 7),
         "samples": [{"case": cases[0], "impl": impl[0]}] if cases else [],
         "by_kind": counts, "by_cap": caps, "input_features": feats, "skipped": skipped, "cases": len(cases),
